@@ -147,6 +147,9 @@ def gen_compound(ch, cfg, depth, force=False):
         c['ids'].append(ch.pick(IDS))
     if ch.p(0.2):
         c['classes'].append(ch.pick(CLASSES))
+        # several classes on one compound (sometimes one of them twice)
+        while len(c['classes']) < 4 and ch.p(0.35):
+            c['classes'].append(ch.pick(CLASSES))
     for _ in range(ch.weighted([(6, 0), (3, 1), (1, 2)])):
         c['attrs'].append(gen_attr(ch, cfg))
     for _ in range(ch.weighted([(4, 0), (4, 1), (2, 2)])):
